@@ -7,6 +7,11 @@ Results are written into /verif/seeded/<name>/meta.json."""
 import json, os, shutil, subprocess, sys, tempfile
 
 ENV = dict(os.environ, GOFLAGS="-mod=mod", GOPROXY="off", GOSUMDB="off", GOTOOLCHAIN="local")
+# the tree the patch is applied to while the checks run: /repo, or (to work in parallel with other runs) a scratch worktree
+# of it named by SEED_REPO, in which case the checks are pointed at it with VERIF_REPO
+TARGET = os.environ.get("SEED_REPO", "/repo")
+if TARGET != "/repo":
+    ENV["VERIF_REPO"] = TARGET
 
 
 def sh(cmd, cwd=None, timeout=3600):
@@ -69,11 +74,11 @@ def main():
     if os.path.abspath(src) != os.path.abspath(dst):
         shutil.copy(os.path.join(src, "demo_test.go"), os.path.join(dst, "demo_test.go"))
     # run the checks on /repo with the patch applied
-    rc, out = sh("git -C /repo status --porcelain")
-    assert out.strip() == "", "/repo not clean: " + out
+    rc, out = sh("git -C %s status --porcelain" % TARGET)
+    assert out.strip() == "", "%s not clean: %s" % (TARGET, out)
     checks = {}
-    rc, out = sh("git -C /repo apply %s" % os.path.join(dst, "patch.diff"))
-    assert rc == 0, "apply to /repo failed: " + out
+    rc, out = sh("git -C %s apply %s" % (TARGET, os.path.join(dst, "patch.diff")))
+    assert rc == 0, "apply to %s failed: %s" % (TARGET, out)
     try:
         for pid in ids:
             rc, out = sh("./check %s --tier %s" % (pid, tier), cwd="/verif", timeout=7200)
@@ -82,8 +87,8 @@ def main():
             checks[pid] = {"exit": rc, "violations": len(viol), "first": (desc[0][:300] if desc else (out.splitlines()[-1][:300] if out.strip() else ""))}
             print(name, pid, "exit", rc, "|", checks[pid]["first"][:200])
     finally:
-        sh("git -C /repo checkout -- .")
-        sh("git -C /repo clean -fdq")
+        sh("git -C %s checkout -- ." % TARGET)
+        sh("git -C %s clean -fdq" % TARGET)
     meta.update({"confirmation": result, "checks_run": checks, "tier": tier,
                  "detected_by": sorted(p for p, c in checks.items() if c["exit"] == 1)})
     prev = os.path.join(dst, "meta.json")
